@@ -20,9 +20,12 @@ META = {
             "a reorganisation of any depth (rollforward state commits/receipts, marker write, deleteOldReceipts, swapTxMapping, swapChainMapping "
             "bulk, marker delete): before the marker the node restarts on the old tip, after it the marker-driven recovery (RecoverChainMapping + "
             "recoverReorg) ends on the new tip holding exactly the crash-free final store; crash_replay_converges proved for main-chain connection, "
-            "refuted (known finding) for reorg crashes before the marker.  Bulks/transactions are atomic units (no partial flush).  On every run the "
+            "refuted (known finding) for reorg crashes before the marker.  _partial_flush: every prefix of the operations inside the tx-delete bulk and inside "
+            "the swapChainMapping bulk is proved recoverable (general theorem restart_rec over the predicate Rec); crash DURING recovery: proved idempotent for "
+            "atomic units; a partial flush inside the RecoverChainMapping bulk is refuted in Coq and reproduced on the real code (known finding).  On every run the "
             "real code is exercised for every journal prefix of every scenario (real Init+Recover, invariant, legitimacy of best, marker gone, replay "
-            "convergence against a crash-free node fed the blocks twice), and its sequence of write units is compared with the model's journal.",
+            "convergence against a crash-free node fed the blocks twice), also for cuts INSIDE bulks and for a second crash during the journaled recovery, "
+            "and its sequence of write units is compared with the model's journal.",
     "note": "Trusted: Coq kernel; journaling store (harness/engines/chaindb/zz_verif_journal_test.go) as the model of db.DB atomicity "
             "(committed transaction / flushed bulk / single set are atomic); badger durability below db.DB; consensus stub (LIB 0 at restart, "
             "as the lazily loaded DPoS status).  Known finding: a crash during a reorganisation before the marker is written restarts on the "
